@@ -13,6 +13,7 @@ import SkNet.Lemmas.Connectivity
 import SkNet.Lemmas.BreakCycles
 import SkNet.Lemmas.Bipartite
 import SkNet.Lemmas.Reach
+import SkNet.Lemmas.GetCycles
 
 namespace SkNet.C12
 open SkNet SkNet.Connectivity SkNet.Cycles
@@ -348,6 +349,68 @@ example : isAcyclic (fun _ => 1) ⟨3, 3, fun i => [(i + 1) % 3], fun i j => if 
 /-- the path 0 → 1 → 2 has three strong components: `True` -/
 example : isAcyclic (fun _ => 3) ⟨3, 3, fun i => if i < 2 then [i + 1] else [], fun i j => if i < 2 ∧ j = i + 1 then 1 else 0⟩ (some true)
     = .ok true := by rfl
+
+/-! ## get_cycles -/
+
+/-- the self-loops recorded first are simple cycles -/
+theorem selfLoop_cycles_simple (m : Mat) (hc : m.Canon) (hsq : m.nRow = m.nCol) (d : Bool) :
+    ∀ c ∈ (selfLoops m).map (fun v => [v]), IsSimpleCycle m.nRow m.adj d c := by
+  intro c hcm
+  obtain ⟨v, hv, rfl⟩ := List.mem_map.mp hcm
+  simp only [selfLoops, List.mem_filter, List.mem_range, decide_eq_true_eq] at hv
+  have hmem : v ∈ m.adj v :=
+    (hc v v hv.1).mpr ⟨hsq ▸ hv.1, fun h => by rw [h] at hv; exact absurd hv.2 (by decide)⟩
+  refine ⟨by simp, by simp [hv.1], ?_, Or.inr (Or.inl rfl)⟩
+  show isChain m.adj ([v] ++ [v]) = true
+  simp [isChain, hmem]
+
+/-- ★ `getCycles_sound` (genuine simple cycles): whatever scipy answered (only the length of its label vector is
+    used) and whatever the fuel, every list returned by `get_cycles` is a simple cycle of the graph: distinct
+    nodes, each followed by one of its successors and the last one by the first; in an undirected graph it is a
+    self-loop or has at least three nodes. -/
+theorem getCycles_sound (fuel : Nat) (nCC : Bool → Nat) (labels : Bool → List Nat) (m : Mat)
+    (directed : Option Bool) (d : Bool) (cs : List (List Nat))
+    (hc : m.Canon) (hsq : m.nRow = m.nCol)
+    (hd : resolveDirected m directed = .ok d)
+    (hlen : (labels d).length = m.nRow)
+    (h : getCyclesWith fuel nCC labels m directed = .ok (some cs)) :
+    ∀ c ∈ cs, IsSimpleCycle m.nRow m.adj d c := by
+  have hwf := Canon.wf hc hsq
+  have h0 := selfLoop_cycles_simple m hc hsq d
+  unfold getCyclesWith at h
+  simp only [hd] at h
+  split at h
+  · cases h; exact h0
+  · split at h
+    · cases h; exact h0
+    · split at h
+      · cases h
+      · rename_i cycles hcy
+        cases h
+        have hstarts : ∀ s ∈ (if d = true then (npUnique (labels d)).filter fun v => (labels d).count v > 1
+            else npUnique (labels d)).map (firstOfLabel (labels d)), s < m.nRow := by
+          intro s hs
+          obtain ⟨l, hl, rfl⟩ := List.mem_map.mp hs
+          have hl' : l ∈ labels d := by
+            split at hl
+            · exact mem_npUnique.mp (List.mem_filter.mp hl).1
+            · exact mem_npUnique.mp hl
+          rw [← hlen]
+          exact List.idxOf_lt_length_iff.mpr hl'
+        have hall := cyclesFromStarts_inv hwf d fuel _ hstarts _ cycles h0 hcy
+        intro c hcm
+        rcases dedupCycles_mem d cycles [] [] c hcm with hh | ⟨c0, hc0, rfl⟩
+        · cases hh
+        · exact isSimpleCycle_rollMin (hall c0 hc0)
+
+/-- the directed square with a chord 1 → 3 (the repository's own test): two cycles, both genuine -/
+def chordSquare : Mat :=
+  ⟨4, 4, fun i => if i = 1 then [2, 3] else [(i + 1) % 4],
+    fun i j => if j = (i + 1) % 4 ∨ (i = 1 ∧ j = 3) then 1 else 0⟩
+
+example : getCycles (fun _ => 1) (fun _ => [0, 0, 0, 0]) chordSquare (some true) = .ok (some [[0, 1, 3], [0, 1, 2, 3]]) := by
+  rfl
+example : ∀ c ∈ [[0, 1, 3], [0, 1, 2, 3]], IsSimpleCycle 4 chordSquare.adj true c := by decide
 
 /-! ## break_cycles -/
 
